@@ -20,14 +20,14 @@ pub open spec fn lex_lt(a: Seq<u8>, b: Seq<u8>) -> bool
 {
     if b.len() == 0 { false } else if a.len() == 0 { true } else if a[0] != b[0] { a[0] < b[0] } else { lex_lt(a.drop_first(), b.drop_first()) }
 }
-pub proof fn lemma_lex_irrefl(a: Seq<u8>)
-    ensures !lex_lt(a, a)
+pub broadcast proof fn lemma_lex_irrefl(a: Seq<u8>)
+    ensures !#[trigger] lex_lt(a, a)
     decreases a.len()
 {
     if a.len() > 0 { lemma_lex_irrefl(a.drop_first()); }
 }
-pub proof fn lemma_lex_trans(a: Seq<u8>, b: Seq<u8>, c: Seq<u8>)
-    requires lex_lt(a, b), lex_lt(b, c)
+pub broadcast proof fn lemma_lex_trans(a: Seq<u8>, b: Seq<u8>, c: Seq<u8>)
+    requires #[trigger] lex_lt(a, b), #[trigger] lex_lt(b, c)
     ensures lex_lt(a, c)
     decreases a.len()
 {
@@ -35,8 +35,8 @@ pub proof fn lemma_lex_trans(a: Seq<u8>, b: Seq<u8>, c: Seq<u8>)
         lemma_lex_trans(a.drop_first(), b.drop_first(), c.drop_first());
     }
 }
-pub proof fn lemma_lex_total(a: Seq<u8>, b: Seq<u8>)
-    ensures lex_lt(a, b) || a == b || lex_lt(b, a)
+pub broadcast proof fn lemma_lex_total(a: Seq<u8>, b: Seq<u8>)
+    ensures #[trigger] lex_lt(a, b) || a == b || lex_lt(b, a)
     decreases a.len()
 {
     if a.len() > 0 && b.len() > 0 && a[0] == b[0] {
@@ -50,6 +50,7 @@ pub proof fn lemma_lex_total(a: Seq<u8>, b: Seq<u8>)
     }
 }
 pub broadcast axiom fn axiom_dotdot_lit() ensures #[trigger] sb("..") == seq![46u8, 46u8];
+pub broadcast group group_lex_order { lemma_lex_irrefl, lemma_lex_trans, lemma_lex_total }
 pub trait VxStr {
     spec fn vx_sb(&self) -> Seq<u8>;
     fn vx_len(&self) -> (r: usize);
